@@ -29,13 +29,15 @@ class CIGAR(list):
     Returns:
       CIGAR: the complement CIGAR
     """
-    comp = list(reversed(self))
-    for op in comp:
-      if   op.code == "I": op.code = "D"
-      elif op.code == "S": op.code = "D"
-      elif op.code == "D": op.code = "I"
-      elif op.code == "N": op.code = "I"
-    return CIGAR(comp)
+    comp = CIGAR()
+    for op in reversed(self):
+      if   op.code == "I": code = "D"
+      elif op.code == "S": code = "D"
+      elif op.code == "D": code = "I"
+      elif op.code == "N": code = "I"
+      else: code = op.code
+      comp.append(CIGAR.Operation(op.length, code))
+    return comp
 
   def validate(self, version = "gfa1"):
     """Validates the instance.
